@@ -36,6 +36,314 @@ def make_theory(rng, kind):
     return th, cand, pool, obs
 
 
+def fix_all(rep, th):
+    """every parameter fixed: through the package's private helper when it exists, and always through the public
+    dictionary parameters_fixed (which is what free_parameters() reads)"""
+    f = common.private(rep, th, '_fix_parameters', 'parameters are fixed through the public dictionary parameters_fixed instead')
+    if f is not None:
+        f('ALL')
+    for k in th.parameters:
+        th.parameters_fixed[k] = True
+
+
+def release(rep, th, free):
+    f = common.private(rep, th, '_release_parameters', 'parameters are released through the public dictionary parameters_fixed instead')
+    if f is not None:
+        f(*free)
+    else:
+        for k in free:
+            th.parameters_fixed[k] = False
+
+
+def pd_cov(rng, pars, errs):
+    """a positive-definite covariance with the given standard deviations: {(p1, p2): value}"""
+    A = np.array([[rng.gauss(0, 1) for _ in pars] for _ in pars])
+    S = A @ A.T + 0.3 * np.eye(len(pars))
+    d = np.sqrt(np.diag(S))
+    e = np.array([errs[p] for p in pars])
+    C = S / np.outer(d, d) * np.outer(e, e)
+    return {(p1, p2): float(C[i, j]) for i, p1 in enumerate(pars) for j, p2 in enumerate(pars)}
+
+
+class Shadow:
+    """what the harness itself did to one theory object (never read back from the object): the parameter errors and the
+    covariance it was given, by assignment, by in-place modification of the dictionary it carries, or by a fitter (then
+    taken from the minimiser, not from the theory)"""
+    def __init__(self, th, kind, cand, pool, obslist, name):
+        self.th, self.kind, self.cand, self.pool, self.obslist, self.name = th, kind, cand, pool, obslist, name
+        self.errs, self.cov, self.history = {}, None, []
+
+
+def state_stream(rep, rng, quick):
+    """Oracle stream (closed formula on independently evaluated up/down values; no model): the property along HISTORIES.
+
+    The uncertainty returned NOW is sqrt(d^T C d) with the covariance the theory object carries NOW (the quadrature sum
+    over its parameter errors when it carries none), d_p = (f(p + e_p/2) - f(p - e_p/2)) / e_p, whatever happened before:
+    (1) the covariance dictionary / the errors of the same object modified IN PLACE between two propagations (rescaled,
+    single entries changed, updated from another matrix, entries of a further parameter added, a parameter fixed and its
+    entries removed, emptied); (2) SEVERAL theory objects in one process, some with errors only, some given a covariance
+    by assignment, some by a real MinuitFitter (hesse/fit + covsync): what one object gets must never show in another.
+    The expected value is computed from the harness's own record of what each object was given (for a fitter: from the
+    minimiser), with evaluations of the observable on a fresh parameter dictionary."""
+    import gepard as g
+    nsc = 14 if quick else 300
+    worst = [0.0]
+
+    def new_shadow(kind, name):
+        th, cand, pool, obslist = make_theory(rng, kind)
+        fix_all(rep, th)
+        return Shadow(th, kind, cand, pool, obslist, name)
+
+    def choose_obs(sh, pt):
+        obs = rng.choice(sh.obslist)
+        if obs is None or (sh.kind == 'adhoc' and obs == 'XUU' and 'phi' not in pt and 'FTn' not in pt):
+            obs = pt.observable
+        return obs
+
+    def check(sh, scenario, step):
+        """one propagation on sh.th, compared with the formula for the state recorded in the shadow"""
+        th = sh.th
+        pt = rng.choice(sh.pool)
+        obs = choose_obs(sh, pt)
+        pars = th.free_parameters()
+        base = dict(th.parameters)
+        fun = getattr(th, obs)
+
+        def f_at(shift):
+            saved = dict(th.parameters)
+            try:
+                th.parameters.clear(); th.parameters.update(base)
+                for k, v in shift.items():
+                    th.parameters[k] = base[k] + v
+                return float(fun(pt))
+            finally:
+                th.parameters.clear(); th.parameters.update(saved)
+        replay = dict(scenario=scenario, step=step, object=sh.name, theory=sh.kind, observable=obs, dataset=pt.get('id'),
+                      point={k: pt.get(k) for k in ('xB', 'Q2', 't', 'phi', 'FTn') if k in pt}, free=pars,
+                      history=list(sh.history), errors={p: sh.errs.get(p) for p in pars},
+                      covariance=None if sh.cov is None else {'%s,%s' % k: v for k, v in sh.cov.items()})
+        key = 'state/%s/%s' % (scenario, step.split(':')[0])
+        try:
+            f0 = f_at({})
+            d = np.array([(f_at({p: sh.errs[p] / 2.}) - f_at({p: -sh.errs[p] / 2.})) / sh.errs[p] for p in pars])
+            d4 = np.array([(f_at({p: sh.errs[p] / 4.}) - f_at({p: -sh.errs[p] / 4.})) / (sh.errs[p] / 2.) for p in pars])
+            plain = float(th.predict(pt, observable=obs))
+        except Exception:
+            rep.case('state', (scenario, step, sh.name, 'observable raises'), nontrivial=False)
+            return
+        if sh.cov:
+            Cm = np.array([[sh.cov[(a, b)] for b in pars] for a in pars])
+            want = math.sqrt(max(float(d @ Cm @ d), 0.0))
+            gR = (4 * d4 - d) / 3
+            wantR = math.sqrt(max(float(gR @ Cm @ gR), 0.0))
+        else:
+            want = math.sqrt(sum((di * sh.errs[p]) ** 2 for di, p in zip(d, pars)))
+            wantR = math.sqrt(sum((gi * sh.errs[p]) ** 2 for gi, p in zip((4 * d4 - d) / 3, pars)))
+        curv = max([abs(a - b) / (abs(a) + abs(b) + 1e-300) for a, b in zip(d, d4)] or [0.0])
+        if not (math.isfinite(want) and math.isfinite(f0) and math.isfinite(wantR)):
+            rep.case('state', (scenario, step, sh.name, 'observable not finite'), nontrivial=False)
+            return
+        rep.case('state', (scenario, step, sh.name, obs, tuple(pars), len(sh.history)),
+                 sample=dict(scenario=scenario, step=step, object=sh.name, observable=obs, free=pars, history=list(sh.history)))
+        rep.hist('state.step', '%s/%s' % (scenario, step.split(':')[0]))
+        try:
+            r = th.predict(pt, uncertainty=True, observable=obs)
+            val, unc = float(r[0]), float(r[1])
+        except Exception as e:
+            rep.violation(key + '/exception', 'object %s (%s) after %s: predict(uncertainty=True, observable=%s) raised %s(%s) although the '
+                          'observable evaluates and the formula gives %r' % (sh.name, sh.kind, sh.history, obs, type(e).__name__, str(e)[:100], want), replay)
+            th.parameters.clear(); th.parameters.update(base)
+            return
+        if dict(th.parameters) != base:
+            rep.violation(key + '/params-not-restored', 'object %s after %s: predict(uncertainty=True) left the parameters changed' % (sh.name, sh.history), replay)
+            th.parameters.clear(); th.parameters.update(base)
+        if f2hex(val) != f2hex(plain):
+            rep.violation(key + '/central', 'object %s after %s: central value %r differs from the plain prediction %r' % (sh.name, sh.history, val, plain), replay)
+        err = relerr(unc, want, 1e-12 * abs(val))
+        worst[0] = max(worst[0], err)
+        if err > 1e-6:
+            # a concrete failing input of the PROPERTY (gradient, not this finite-difference scheme): beyond the curvature allowance
+            # of the independent Richardson gradient, where the observable is locally linear
+            found = curv < 5e-3 and relerr(unc, wantR, 1e-12 * abs(val)) > 2e-2
+            rep.violation(key, 'object %s (%s), history %s: uncertainty of %s with free=%s is %r, but sqrt(d^T C d) with the %s this '
+                          'object carries now is %r (independent Richardson gradient: %r, relative curvature %.1e)' % (
+                              sh.name, sh.kind, sh.history, obs, pars, unc, 'covariance' if sh.cov else 'parameter errors (no covariance)',
+                              want, wantR, curv), dict(replay, code=unc, formula=want, richardson=wantR), found_input=found)
+
+    def start(sh, nfree=None, rel=None):
+        th = sh.th
+        free = rng.sample(sh.cand, nfree or rng.randint(2, min(4, len(sh.cand))))
+        release(rep, th, free)
+        pars = th.free_parameters()
+        rel = rel or rng.choice([1e-3, 3e-3])
+        sh.errs = {p: rel * (abs(th.parameters[p]) + 0.1) * rng.uniform(0.5, 2) for p in pars}
+        th.parameters_errors = dict(sh.errs)
+        sh.history.append('errors assigned (free %s)' % ','.join(pars))
+        return pars
+
+    def assign_cov(sh, scale=1.0):
+        pars = sh.th.free_parameters()
+        sh.cov = pd_cov(rng, pars, {p: scale * sh.errs[p] for p in pars})
+        sh.th.covariance = dict(sh.cov)
+        sh.history.append('covariance assigned')
+
+    def fitter_cov(sh):
+        """covariance and errors through a real MinuitFitter; the shadow takes them from the minimiser.  False when no fit was possible"""
+        th = sh.th
+        if sh.kind == 'KM09':
+            from gepard import fits
+            pts = rng.sample(list(fits.GLOpoints), 6)
+            how = 'hesse'
+        else:
+            cand = [p for p in sh.pool if p.get('observable') in ('ALU', 'AC', 'XUU', 'BSA') and 'phi' in p and p.get('err')]
+            pts = rng.sample(cand, 8)
+            how = rng.choice(['hesse', 'fit'])
+        try:
+            fit = g.MinuitFitter(g.DataSet(pts), th)
+            if how == 'fit':
+                fit.fit()
+            else:
+                fit.minuit.hesse()
+                fit.covsync()
+            pars = th.free_parameters()
+            mc = fit.minuit.covariance
+            cov = {(a, b): float(mc[a, b]) for a in pars for b in pars}
+            errs = {k: float(v) for k, v in fit.minuit.errors.to_dict().items()}
+        except Exception as e:
+            rep.hist('state.fitter', 'no covariance (%s)' % type(e).__name__)
+            cov = None
+        if cov is not None and not (all(math.isfinite(v) for v in cov.values()) and all(cov[(a, a)] > 0 and errs[a] > 0 for a in pars)):
+            rep.hist('state.fitter', 'covariance not usable')
+            cov = None
+        if cov is None:
+            # the synchronisation may have replaced the errors and the covariance of the object: put it into a state the
+            # harness knows (its recorded errors, no covariance) by plain assignment
+            th.parameters_errors = dict(sh.errs)
+            th.covariance = {}
+            sh.cov = None
+            sh.history.append('a MinuitFitter without usable covariance was tried; errors re-assigned, covariance = {} assigned')
+            return False
+        sh.cov, sh.errs = cov, errs
+        sh.history.append('covariance from MinuitFitter (%s + covsync, %d points)' % (how, len(pts)))
+        rep.hist('state.fitter', how)
+        return True
+
+    for c in range(nsc):
+        scenario = ('inplace', 'objects')[c % 2]
+        kind = rng.choice(['KM09', 'adhoc', 'adhoc'])
+        if scenario == 'inplace':
+            sh = new_shadow(kind, 'A')
+            start(sh)
+            assign_cov(sh)
+            check(sh, scenario, 'first')
+            for k in range(rng.randint(3, 5)):
+                th = sh.th
+                pars = th.free_parameters()
+                op = rng.choice(['rescale', 'entry', 'update', 'extra', 'remove', 'clear+errors', 'errors'])
+                if not sh.cov and op in ('rescale', 'entry', 'extra', 'remove'):
+                    op = 'update'
+                if op == 'rescale':
+                    fac = rng.choice([4.0, 0.25, 9.0])
+                    for kk in th.covariance:
+                        th.covariance[kk] *= fac
+                    sh.cov = {kk: v * fac for kk, v in sh.cov.items()}
+                    sh.history.append('every entry of the covariance dictionary multiplied in place by %g' % fac)
+                elif op == 'entry':
+                    # off-diagonal entries damped in place (stays positive definite), one variance enlarged
+                    q = rng.choice(pars)
+                    for (a, b) in list(th.covariance):
+                        if a != b:
+                            th.covariance[(a, b)] *= 0.3
+                    th.covariance[(q, q)] *= 5.0
+                    sh.cov = {(a, b): v * (0.3 if a != b else (5.0 if a == q else 1.0)) for (a, b), v in sh.cov.items()}
+                    sh.history.append('off-diagonal entries * 0.3 and variance of %s * 5 in place' % q)
+                elif op == 'update':
+                    new = pd_cov(rng, pars, {p: 3.0 * sh.errs[p] for p in pars})
+                    if th.covariance is None or not isinstance(getattr(th, 'covariance', None), dict):
+                        th.covariance = {}
+                    th.covariance.update(new)
+                    sh.cov = dict(sh.cov or {}); sh.cov.update(new)
+                    sh.history.append('covariance.update(another positive-definite matrix, three times wider)')
+                elif op == 'extra':
+                    extra = [q for q in sh.cand if q not in pars]
+                    if not extra:
+                        continue
+                    q = extra[0]
+                    add = {(q, q): (0.01 * (abs(th.parameters[q]) + 0.1)) ** 2}
+                    for a in pars:
+                        add[(a, q)] = add[(q, a)] = 0.0
+                    th.covariance.update(add)
+                    sh.cov = dict(sh.cov); sh.cov.update(add)
+                    sh.history.append('entries of the fixed parameter %s added to the covariance dictionary in place' % q)
+                elif op == 'remove':
+                    if len(pars) < 2:
+                        continue
+                    q = rng.choice(pars)
+                    th.parameters_fixed[q] = True
+                    for kk in [kk for kk in th.covariance if q in kk]:
+                        del th.covariance[kk]
+                    sh.cov = {kk: v for kk, v in sh.cov.items() if q not in kk}
+                    sh.history.append('parameter %s fixed and its entries deleted from the covariance dictionary' % q)
+                elif op == 'clear+errors':
+                    th.covariance.clear()
+                    sh.cov = None
+                    sh.history.append('covariance dictionary emptied in place')
+                else:
+                    q = rng.choice(pars)
+                    th.parameters_errors[q] *= 2.0
+                    sh.errs = dict(sh.errs); sh.errs[q] *= 2.0
+                    if sh.cov:
+                        sh.history.append('parameters_errors[%s] doubled in place (covariance kept)' % q)
+                    else:
+                        sh.history.append('parameters_errors[%s] doubled in place (no covariance)' % q)
+                check(sh, scenario, op)
+        else:
+            # several objects alive together; B (and later C) of the same class as A or of the other one
+            A = new_shadow(kind, 'A')
+            B = new_shadow(kind if rng.random() < 0.6 else rng.choice(['KM09', 'adhoc']), 'B')
+            same_free = None
+            parsA = start(A)
+            if B.kind == A.kind and rng.random() < 0.7:      # the same free parameters in both objects
+                release(rep, B.th, parsA)
+                B.errs = {p: A.errs[p] * rng.uniform(1.5, 3) for p in B.th.free_parameters()}
+                B.th.parameters_errors = dict(B.errs)
+                B.history.append('errors assigned (free %s)' % ','.join(B.th.free_parameters()))
+            else:
+                start(B)
+            check(A, scenario, 'A-errors-only')
+            if rng.random() < 0.75:
+                got = fitter_cov(B)
+                if not got:
+                    assign_cov(B, 2.0)
+            else:
+                assign_cov(B, 2.0)
+            A.history.append('(another object B: %s)' % B.history[-1])
+            check(B, scenario, 'B-own-covariance')
+            check(A, scenario, 'A-after-B-got-covariance')
+            # now A gets a covariance of its own, then a third object is fitted / assigned
+            if rng.random() < 0.5:
+                if not fitter_cov(A):
+                    assign_cov(A)
+            else:
+                assign_cov(A)
+            B.history.append('(another object A: %s)' % A.history[-1])
+            check(A, scenario, 'A-own-covariance')
+            check(B, scenario, 'B-after-A-got-covariance')
+            Cc = new_shadow(rng.choice([A.kind, B.kind]), 'C')
+            start(Cc)
+            if not fitter_cov(Cc):
+                assign_cov(Cc, 3.0)
+            for sh_ in (A, B):
+                sh_.history.append('(another object C: %s)' % Cc.history[-1])
+            check(B, scenario, 'B-after-C-got-covariance')
+            check(A, scenario, 'A-after-C-got-covariance')
+            check(Cc, scenario, 'C-own-covariance')
+    rep.coverage['state_stream_worst_relative_difference'] = float('%.3g' % worst[0])
+    rep.notes.append('stream "state" is an oracle stream (formula sqrt(d^T C d) / quadrature sum on independently evaluated central '
+                     'differences, tolerance 1e-6; no model): histories of in-place changes of the covariance/errors of one object, and '
+                     'several theory objects (covariances by assignment and by MinuitFitter) alive in one process')
+
+
 def loop_stream(rep, rng, quick):
     """the parameter bookkeeping of predict(uncertainty=True) versus Model/UncLoop.lean: an observable that records the
     parameter dictionary it sees at every call (and raises at a chosen one) is evaluated through the real predict; the
@@ -46,11 +354,9 @@ def loop_stream(rep, rng, quick):
         kind = rng.choice(['KM09', 'adhoc'])
         th, cand, pool, _ = make_theory(rng, kind)
         pt = rng.choice(pool)
-        th._fix_parameters('ALL')
-        for k in th.parameters:
-            th.parameters_fixed[k] = True
+        fix_all(rep, th)
         free = rng.sample(cand, rng.randint(1, min(4, len(cand))))
-        th._release_parameters(*free)
+        release(rep, th, free)
         pars = th.free_parameters()
         errs = {p: 1e-3 * (abs(th.parameters[p]) + 0.1) * rng.uniform(0.5, 2) for p in pars}
         missing = None
@@ -91,8 +397,21 @@ def loop_stream(rep, rng, quick):
         meta.append(dict(kind=kind, free=pars, raise_at=(q, target), missing_error=missing, seen=seen, after=after,
                          out=out, same_keys=same_keys, before=before))
         rep.hist('loop.outcome', out)
-    outs = common.run_driver(lines)
+    try:
+        outs = common.run_driver(lines)
+    except common.ModelUnavailable as ex:
+        outs = [None] * len(lines)
+        rep.violation('model-unavailable', 'the Lean model of C18 could not be run (%s): only the checks on the real code alone were made '
+                      '(parameters restored, central value, oracle and state streams)' % str(ex)[:300], dict(reason=str(ex)[:300]), found_input=False)
     for line, m, o in zip(lines, meta, outs):
+        if o is None:
+            # no model: what can be said on the real code alone — the parameters are left exactly as they were
+            rep.case('loop', line[:300], sample=None)
+            if not (m['same_keys'] and [f2hex(float(v)) for v in m['after']] == [f2hex(float(v)) for v in m['before']]):
+                rep.violation('loop/params-not-restored', 'predict(uncertainty=True) with free parameters %s left theory.parameters changed '
+                              '(observable %s)' % (m['free'], 'raising at %s=%r' % m['raise_at'] if m['raise_at'][1] is not None else 'returning'),
+                              dict(free=m['free'], raise_at=str(m['raise_at']), missing_error=m['missing_error'], outcome=m['out']))
+            continue
         rep.case('loop', line[:300], sample=dict(theory=m['kind'], free=m['free'], outcome=m['out']) if m is meta[0] else None)
         if o == 'bad-op':
             rep.violation('loop/bad-op', 'driver rejected a protocol line', dict(line=line[:500]), found_input=False)
@@ -134,11 +453,9 @@ def run(rep):
         if kind == 'adhoc' and obs in ('XUU',) and 'phi' not in pt and 'FTn' not in pt:
             obs = pt.observable
         # start from everything fixed, release a random subset
-        th._fix_parameters('ALL')
-        for k in th.parameters:
-            th.parameters_fixed[k] = True
+        fix_all(rep, th)
         free = rng.sample(cand, rng.randint(1, min(4, len(cand))))
-        th._release_parameters(*free)
+        release(rep, th, free)
         pars = th.free_parameters()
         rel = rng.choice([1e-3, 3e-3, 1e-2])
         errs = {p: rel * (abs(th.parameters[p]) + 0.1) * rng.uniform(0.5, 2) for p in pars}
@@ -240,12 +557,28 @@ def run(rep):
             rep.hist('nfree', len(pars))
             rep.hist('obs', obs)
     loop_stream(rep, rng, quick)
-    outs = common.run_driver(lines)
+    state_stream(rep, rng, quick)
+    try:
+        outs = common.run_driver(lines)
+    except common.ModelUnavailable as ex:
+        outs = [None] * len(lines)
+        rep.violation('model-unavailable', 'the Lean model of C18 could not be run (%s): only the checks on the real code alone were made '
+                      '(parameters restored, central value, oracle and state streams)' % str(ex)[:300], dict(reason=str(ex)[:300]), found_input=False)
     for line, m, o in zip(lines, meta, outs):
-        val, unc = [hex2f(x) for x in o.split()]
         sample = {k: m[k] for k in ('kind', 'obs', 'free', 'mode', 'rel', 'impl', 'dataset', 'round')}
         rep.case('unc', line, sample=sample)
         base = dict(sample)
+        if o is None:
+            # no model: the model's formula evaluated in Python on the same independently evaluated up/down values
+            xs = [hex2f(x) for x in line.split()[3:]]
+            npar = len(m['free'])
+            f0_, ups_, downs_ = xs[2 * npar], xs[2 * npar + 1:3 * npar + 1], xs[3 * npar + 1:4 * npar + 1]
+            d_ = np.array([(u - dn) / m['errs'][q] for u, dn, q in zip(ups_, downs_, m['free'])])
+            val = f0_
+            unc = math.sqrt(max(float(d_ @ m['C'] @ d_), 0.0)) if m['C'] is not None else \
+                math.sqrt(sum((di * m['errs'][q]) ** 2 for di, q in zip(d_, m['free'])))
+        else:
+            val, unc = [hex2f(x) for x in o.split()]
         if not m['restored']:
             rep.violation('unc/params-not-restored', 'predict(uncertainty=True) left the parameters changed (%s, free=%s)' % (m['obs'], m['free']), base)
         if not m['pt_ok']:
@@ -294,11 +627,16 @@ def run(rep):
             continue
         nor += 1
         rep.case('oracle', ('o', m['obs'], tuple(pars), m['rel'], nor), sample=None)
-        if max(curv) < 1e-2 and relerr(m['impl'][1], want, 1e-12 * abs(m['impl'][0])) > 2e-2:
+        # cut-off and tolerance belong together: a relative curvature c (difference of the central differences at h and h/2 over
+        # their sum) means the code's central difference at step h is off the gradient by (4/3)*2*c ~ 2.7 c (measured over 3605
+        # cases: error = 0.149 * 2e-2 at c = 1.1e-3, linear in c).  The tolerance 2e-2 therefore admits c < 5e-3 (error <= 1.4e-2),
+        # not the whole range c < 1e-2 of the quantifier, where 2.7 % may legitimately occur
+        rep.hist('oracle.curvature', 'admitted (< 5e-3)' if max(curv) < 5e-3 else 'not compared (>= 5e-3)')
+        if max(curv) < 5e-3 and relerr(m['impl'][1], want, 1e-12 * abs(m['impl'][0])) > 2e-2:
             rep.violation('oracle/linear/%s' % m['mode'], 'uncertainty %r of %s differs from sqrt(g^T C g) = %r with an independent '
                           'gradient (relative curvature %.1e)' % (m['impl'][1], m['obs'], want, max(curv)),
                           dict(kind=m['kind'], obs=m['obs'], free=pars, mode=m['mode']))
-    rep.notes.append('oracle stream (independent Richardson gradient, tolerance 2e-2 for relative curvature < 1e-2) supports the '
+    rep.notes.append('oracle stream (independent Richardson gradient, tolerance 2e-2 for relative curvature < 5e-3) supports the '
                      'part of the property the theorems state only under the local-quadratic hypothesis')
     if not ok and not rep.violations:
         rep.violation('lean', 'Lean side of C18 no longer checks: ' + why, dict(reason=why), found_input=False)
